@@ -333,19 +333,19 @@ func TestVerif_C17(t *testing.T) {
 				case 0:
 					logop("WithCertificates")
 					guard("WithCertificates", func() { k.WithCertificates(ctx, collect) })
-					checkList("WithCertificates", got, -1, "", nil, false)
+					checkList("WithCertificates", got, -1, "", nil, true)
 				case 1:
 					logop("WithCertificatesState(%s)", stName)
 					guard("WithCertificatesState", func() { k.WithCertificatesState(ctx, st, collect) })
-					checkList("WithCertificatesState("+stName+")", got, -1, stName, nil, false)
+					checkList("WithCertificatesState("+stName+")", got, -1, stName, nil, true)
 				case 2:
 					logop("WithOwner(owner%d)", o)
 					guard("WithOwner", func() { k.WithOwner(ctx, c17Owners[o], collect) })
-					checkList(fmt.Sprintf("WithOwner(owner%d)", o), got, o, "", nil, false)
+					checkList(fmt.Sprintf("WithOwner(owner%d)", o), got, o, "", nil, true)
 				default:
 					logop("WithOwnerState(owner%d,%s)", o, stName)
 					guard("WithOwnerState", func() { k.WithOwnerState(ctx, c17Owners[o], st, collect) })
-					checkList(fmt.Sprintf("WithOwnerState(owner%d,%s)", o, stName), got, o, stName, nil, false)
+					checkList(fmt.Sprintf("WithOwnerState(owner%d,%s)", o, stName), got, o, stName, nil, true)
 				}
 			},
 			"query": func(t *rapid.T) {
@@ -406,7 +406,7 @@ func TestVerif_C17(t *testing.T) {
 				if countTotal && !useOffset && state != "" {
 					knownIncomplete = "c17-sdk-filteredpaginate-counttotal-nextkey"
 				}
-				checkList(what, all, owner, state, serial, false)
+				checkList(what, all, owner, state, serial, true)
 				knownIncomplete = ""
 			},
 		})
